@@ -1,5 +1,5 @@
 (* Literals (C16): how a value is spelled, on top of the lexer model.  No proofs here. *)
-From Coq Require Import List ZArith Bool Arith.
+From Coq Require Import List ZArith Bool Arith QArith.
 From YV Require Import Common.Corr Gen.CharClass Gen.LexFacts Model.Lexer.
 Import ListNotations.
 Open Scope Z_scope.
@@ -56,6 +56,14 @@ Definition is_escape_letter (c : Z) : bool :=
   (c =? 85) || (c =? 117) || (c =? 120) || (c =? 78) || is_oct c ||
   match single_escape c with Some _ => true | None => false end.
 
+(* the rational a decimal text "<digits>.<digits>" spells: all its digits read as one
+   integer, over 10^(number of digits after the dot) *)
+Definition split_dot (txt : text) : text * text :=
+  let k := span (fun c => negb (c =? 46)) txt in (firstn k txt, skipn (S k) txt).
+Definition decimal_q (cfg : lexcfg) (txt : text) : Q :=
+  let '(ip, fp) := split_dot txt in
+  Qmake (dec_value cfg 0 (ip ++ fp)) (Z.to_pos (10 ^ Z.of_nat (length fp))).
+
 (* every code point of a list of ranges *)
 Fixpoint zrange (lo : Z) (n : nat) : list Z := match n with O => [] | S k => lo :: zrange (lo + 1) k end.
 Definition expand (l : list (Z * Z)) : list Z :=
@@ -81,6 +89,11 @@ Definition literal_obs (cfg : lexcfg) (s : text) : lobs :=
   | ([], EndForeign) => LForeign
   | _ => LOther
   end.
+
+(* evaluating a statement that is one constant gives the constant's value
+   (Constant.__call__ / KeywordConstant: return self.value) *)
+Definition eval_literal (cfg : lexcfg) (s : text) : option tokval :=
+  match literal_obs cfg s with LVal _ v => Some v | _ => None end.
 
 Record lcase := {
   l_text : text;
